@@ -96,8 +96,10 @@ def gen_func(rng: random.Random, side: str, name: str, in_class: bool, like: dic
         pnames = [p for p in ("a", "b", "c") if rng.random() < 0.6]
     else:
         pnames = [p[0] for p in like["params"] if p[0] != "self" and rng.random() < 0.88]
-        if rng.random() < 0.15:
-            pnames.append("z")
+        # parameters that exist on one side only, at any position (renamed / legacy-spelled / stub-only keywords)
+        for extra in ("z", "_y"):
+            if rng.random() < 0.15:
+                pnames.insert(rng.randint(0, len(pnames)), extra)
     params = []
     seen_default = False
     for p in pnames:
